@@ -166,7 +166,8 @@ def _classes():
             for v in s['outs']:
                 rr = s.get('ref', {}).get(v)
                 if rr:
-                    self.add_output(v, val=np.ones(n), ref=rr[0], ref0=rr[1])
+                    self.add_output(v, val=np.ones(n), ref=rr[0], ref0=rr[1],
+                                    res_ref=rr[2] if len(rr) > 2 else None)
                 else:
                     self.add_output(v, val=np.ones(n))
             ar = np.arange(n)
@@ -213,7 +214,8 @@ def _classes():
             for v in s['outs']:
                 rr = s.get('ref', {}).get(v)
                 if rr:
-                    self.add_output(v, val=np.ones(n), ref=rr[0], ref0=rr[1])
+                    self.add_output(v, val=np.ones(n), ref=rr[0], ref0=rr[1],
+                                    res_ref=rr[2] if len(rr) > 2 else None)
                 else:
                     self.add_output(v, val=np.ones(n))
             ar = np.arange(n)
@@ -259,7 +261,8 @@ def _classes():
             for v in s['outs']:
                 rr = s.get('ref', {}).get(v)
                 if rr:
-                    self.add_output(v, val=np.ones(n), ref=rr[0], ref0=rr[1])
+                    self.add_output(v, val=np.ones(n), ref=rr[0], ref0=rr[1],
+                                    res_ref=rr[2] if len(rr) > 2 else None)
                 else:
                     self.add_output(v, val=np.ones(n))
             ar = np.arange(n)
@@ -285,9 +288,19 @@ def _classes():
                     if nm.startswith(pre):
                         root.set_val(nm, case.inputs[nm])
             if case.outputs is not None:
-                for nm in case.outputs:     # promoted names, the ones Problem.load_case leaves to this system
+                done = set()
+                for nm in case.outputs.absolute_names():
                     if nm.startswith(pre):
                         root.set_val(nm, case.outputs[nm])
+                        done.add(nm)
+                for nm in case.outputs:     # names Problem.load_case leaves to this system: promoted input
+                    if nm.startswith(pre) and nm not in done:   # names of automatic sources
+                        try:
+                            src = root.get_source(nm)
+                        except Exception:   # noqa
+                            continue
+                        if src not in done:
+                            root.set_val(src, case.outputs[nm])
 
     class KDisc(om.ExplicitComponent):
         """a component with a discrete input and output (its presence changes how cases are stored)"""
@@ -350,8 +363,13 @@ def build(spec, driver=None):
             comp = KConst(spec=c)
         else:
             comp = (KImpl if c['kind'] == 'impl' else KExpl)(spec=c)
-        group_of(parent).add_subsystem(name, comp, promotes_inputs=list(c['prom_in']),
-                                       promotes_outputs=list(c['prom_out']))
+        sidx = c.get('src_idx', {})
+        g = group_of(parent)
+        g.add_subsystem(name, comp, promotes_inputs=[v for v in c['prom_in'] if v not in sidx],
+                        promotes_outputs=list(c['prom_out']))
+        for v, meta in sidx.items():
+            # promoted with src_indices into a larger (automatically created) source
+            g.promotes(name, inputs=[v], src_indices=meta['idx'], src_shape=(meta['shape'],))
     if spec.get('discrete'):
         p.model.add_subsystem('disc', KDisc(), promotes_inputs=[('u', 'u_d'), ('n', 'n_d')])
     for src, tgt in spec['conns']:
@@ -372,11 +390,12 @@ def build(spec, driver=None):
             # dynamic coloring of the group's approximated jacobian (computed in the first linearization)
             groups[path].declare_coloring(wrt='*', method=method, show_summary=False, show_sparsity=False)
     for d in spec.get('dvs', []):
-        p.model.add_design_var(d['name'], lower=d['lower'], upper=d['upper'])
+        p.model.add_design_var(d['name'], lower=d['lower'], upper=d['upper'], scaler=d.get('scaler'),
+                               adder=d.get('adder'))
     for o in spec.get('objs', []):
-        p.model.add_objective(o['name'], index=o.get('index'))
+        p.model.add_objective(o['name'], index=o.get('index'), scaler=o.get('scaler'), adder=o.get('adder'))
     for o in spec.get('cons', []):
-        p.model.add_constraint(o['name'], upper=o['upper'])
+        p.model.add_constraint(o['name'], upper=o['upper'], scaler=o.get('scaler'), adder=o.get('adder'))
     if driver is None and spec.get('driver_coloring'):
         driver = om.ScipyOptimizeDriver(optimizer='SLSQP', disp=False)
     if driver is not None:
